@@ -211,6 +211,32 @@ func (e *Endpoint) All() []byte {
 	return out
 }
 
+// WaitPeerClosed waits (bounded) until the peer has closed every accepted connection,
+// i.e. every serve loop has seen EOF or an error.  Destination.Shutdown returns as soon
+// as the relay loop has taken the signal; the final flush and the close of the connection
+// happen after that, and closing the endpoint in between leaves the relay goroutine
+// blocked forever in Conn.Flush (HandleData has already gone): a leak per case.
+func (e *Endpoint) WaitPeerClosed(timeout time.Duration) bool {
+	deadline := time.Now().Add(timeout)
+	for {
+		open := 0
+		for _, i := range e.Incarnations() {
+			i.mu.Lock()
+			if !i.closed {
+				open++
+			}
+			i.mu.Unlock()
+		}
+		if open == 0 {
+			return true
+		}
+		if time.Now().After(deadline) {
+			return false
+		}
+		time.Sleep(200 * time.Microsecond)
+	}
+}
+
 // Down stops listening and closes every connection (the endpoint goes away;
 // new connection attempts are refused).  With rst the connections are reset.
 func (e *Endpoint) Down(rst bool) {
